@@ -15,10 +15,11 @@ Driver commands of the monitor properties C14 / C16 / C10.
 -/
 import EngineModel.Driver.Text
 import EngineModel.Spec.Txn
+import EngineModel.Spec.Observe
 import EngineModel.Pure.Detect
 import EngineModel.Gen.DetectGen
 
-open EngineModel EngineModel.Text EngineModel.Spec.Txn
+open EngineModel EngineModel.Text EngineModel.Spec.Txn EngineModel.Spec.Observe
 
 namespace Drv
 
@@ -38,16 +39,6 @@ def txnExec (fault : Option Nat) (auto : Bool) (ks : List CmdKind) : String :=
   let durable := if r.conn.committed.isEmpty then "-" else ",".intercalate (r.conn.committed.map toString)
   s!"ok raised={b01 r.raised} changed={b01 (!r.conn.committed.isEmpty)} " ++
   s!"autocommit={b01 r.conn.working.isNone} durable={durable} trace={showTrace r.trace}"
-
-open Pure.Detect in
-def familyLegacy (s : Schema) : Bool := s.ord < Schema.schema_2_18_0.ord
-
-open Pure.Detect in
-/-- Load outcome of a directory created by the library's creator for `s`. -/
-def loadCreated (s : Schema) : LoadOutcome :=
-  let v := Gen.Detect.stampGen s
-  let numeric := s.marker == some true
-  loadModel Gen.Detect.detectGen (familyLegacy s) (!familyLegacy s) v.1 v.2.1 v.2.2 numeric
 
 open Pure.Detect in
 def monitorsTable (cmd : String) (args : List String) : Option String :=
@@ -74,10 +65,7 @@ def monitorsTable (cmd : String) (args : List String) : Option String :=
   | "c10.col", [ex, req] => some (
       match Schema.ofName req, (if ex = "none" then some none else (Schema.ofName ex).map some) with
       | some req, some ex =>
-        let load := match ex with
-          | none => loadModel Gen.Detect.detectGen false false 0 0 0 false
-          | some s => loadCreated s
-        match createOrLoad load req with
+        match createOrLoadDir ex req with
         | (created, .loaded s) => s!"ok created={b01 created} schema={s.name}"
         | (_, o) => o.render
       | _, _ => "bad-op schema")
